@@ -182,7 +182,7 @@ class CHECK(Check):
             # (5) params
             expp = q['using']
             got = st.params
-            if m['name'] == 'pred2' and a['using'] and predq.USINGS[a['using']][0] == 'alias_prefixed':
+            if m['name'] == 'pred2' and a['using'] and predq.USINGS[a['using']][0] in ('alias_prefixed', 'alias_prefixed_dotted'):
                 expp = None
             ok = (got == expp) or (not expp and not got)
             if not ok:
@@ -199,6 +199,8 @@ class CHECK(Check):
                 allowed.setdefault('t1' if c[0] == 't' else 't2', set()).add((c[2], c[3], c[4]))
         if q['shape'] == 'sub_m':
             allowed.setdefault('t1', set()).add(('gt', 'a', 0))
+        if q['shape'] in ('t_m_sub', 'sub_m_t'):
+            allowed.setdefault('t2', set()).add(('gt', 'b', 0))
         for t in q['tables']:
             for c in t.get('allowed_on', ()):
                 allowed.setdefault(t['name'], set()).add(c)
